@@ -604,7 +604,7 @@ static int ec_write(char *loc, char *cmd, char *arg, char *txt)
 		reg_put('%', path, 0);
 	}
 	if (!strcmp(ex_path(), path))
-		lbuf_saved(xb, 0);
+		lbuf_saved(xb, beg == 0 && end == lbuf_len(xb) ? 0 : -1);
 	if (!strcmp(ex_path(), path))
 		bufs[0].mtime = mtime(path);
 	return 0;
